@@ -244,6 +244,18 @@ def run(ctx):
     try:
         empty = os.path.join(wd, 'empty.json')
         T.dump_json(empty, [])
+        # the safety clauses of the bisection loop as an inductive invariant over unbounded integers (Apalache, spec/apalache/BisectInd.tla)
+        from .. import apalache as AP
+        ind = AP.inductive('BisectInd', prop='Safe', broken_next='NextWrong',
+                           extra={'progress (one pass halves every width)': ['--init=IndInit', '--inv=Halves', '--length=1'],
+                                  'non-vacuity (a stronger halving claim must fail)': ['--init=IndInit', '--inv=HalvesTooStrong', '--length=1']})
+        ctx.extra['apalache_inductive_bisect'] = ind
+        vals = list(ind.values())
+        if not any(v.startswith('unavailable') for v in vals):
+            if vals[:3] != ['NoError'] * 3 or vals[4] != 'NoError':
+                raise RuntimeError('BisectInd: the inductive argument fails on the unchanged specification: %s' % ind)
+            if vals[3] != 'Error' or vals[5] != 'Error':
+                raise RuntimeError('BisectInd: a non-vacuity run is not refuted: %s' % ind)
         ctx.tlc('Bracketing.mc', 'Bracketing', cfgB % ((6, 4) if quick else (8, 5)), env={'TRACE_FILE': empty}, timeout=1200)
         rs = np.random.RandomState(ctx.seed + 3)
         recs = []
